@@ -31,7 +31,8 @@ def boot():
     logging.register_options(CONF)
 
     import mistral
-    if not os.path.realpath(mistral.__file__).startswith('/repo/'):
+    want = os.environ.get('VERIF_REPO', '/repo').rstrip('/') + '/'
+    if not os.path.realpath(mistral.__file__).startswith(want):
         raise RuntimeError('mistral is not imported from /repo: %s'
                            % mistral.__file__)
     from mistral import config  # noqa registers options
